@@ -202,7 +202,7 @@ def hstep (s : HState) (ws : List String) : HState × String :=
     match parseTab t, parseInt? stopAt, parseNat? mask with
     | some i, some st, some mask =>
       let visit : Nat → Node → Int × Bool := fun idx _ =>
-        (if (idx : Int) = st then 7 else 0, mask.testBit (idx % 62))
+        (if (idx : Int) = st then stopValue st else 0, mask.testBit (idx % 62))
       let x := s.sel i
       fin (HashL.foreach hf x.t.size x visit) (fun (x', r, seen) =>
         (s.put i x', "r=" ++ toString r ++ " v=" ++ ids seen))
@@ -210,7 +210,7 @@ def hstep (s : HState) (ws : List String) : HState × String :=
   | ["fconst", t, stopAt] =>
     match parseTab t, parseInt? stopAt with
     | some i, some st =>
-      let visit : Nat → Node → Int := fun idx _ => if (idx : Int) = st then 7 else 0
+      let visit : Nat → Node → Int := fun idx _ => if (idx : Int) = st then stopValue st else 0
       let x := s.sel i
       fin (HashL.foreachConst hf x.t.size x visit) (fun (r, seen) =>
         (s, "r=" ++ toString r ++ " v=" ++ ids seen))
